@@ -32,7 +32,8 @@ func zeroOf(t types.Type) string {
 
 func (e *em) flush(ind string, out *[]string) {
 	for _, p := range e.pre {
-		*out = append(*out, ind+p)
+		// a hoisted function literal (fmtstate.go) spans several lines
+		*out = append(*out, ind+strings.ReplaceAll(p, "\n", "\n"+ind))
 	}
 	e.pre = nil
 }
@@ -279,6 +280,9 @@ func (e *em) stmt(s ast.Stmt, ind string) []string {
 		if e.bigStmt(call, ind, &out) {
 			return out
 		}
+		if e.fmtStmt(call, nil, false, ind, &out) {
+			return out
+		}
 		if _, ok := e.foreignCall(call); ok {
 			e.flush(ind, &out)
 			return out
@@ -368,6 +372,9 @@ func (e *em) assign(s *ast.AssignStmt, ind string, out *[]string) {
 			e.callStmt(c, s.Lhs, define, ind, out)
 			return
 		}
+		if c, ok := unparen(s.Rhs[0]).(*ast.CallExpr); ok && e.fmtStmt(c, s.Lhs, define, ind, out) {
+			return
+		}
 		// bits.* etc: tuple-valued term
 		term := e.expr(s.Rhs[0])
 		e.flush(ind, out)
@@ -438,6 +445,9 @@ func calleeOf(c *ast.CallExpr) *types.Func {
 
 func (e *em) inoutTerms() []string {
 	var r []string
+	if e.closSig != nil {
+		return nil // inside a function literal (fmtstate.go)
+	}
 	for _, v := range e.F.inout {
 		r = append(r, e.names[v])
 	}
@@ -455,7 +465,10 @@ func tuple(parts []string) string {
 }
 
 func (e *em) ret(s *ast.ReturnStmt, ind string, out *[]string) {
-	sig := e.F.obj.Type().(*types.Signature)
+	sig := e.closSig
+	if sig == nil {
+		sig = e.F.obj.Type().(*types.Signature)
+	}
 	nres := sig.Results().Len()
 	parts := e.inoutTerms()
 	if len(s.Results) == 1 && nres > 1 {
